@@ -17,7 +17,7 @@ PLANS = {
     "C07": [("base", 200, 5000), ("fwdonly", 150, 4000), ("errors", 150, 4000)],
     "C09": [("gate", 250, 6000), ("fwdonly", 150, 4000)],
     "C10": [("base", 200, 5000), ("fwdonly", 200, 5000), ("redirect", 150, 4000), ("redirorder", 60, 1500)],
-    "C11": [("errors", 300, 8000), ("errredir", 250, 6000)],
+    "C11": [("errors", 300, 8000), ("errredir", 250, 6000), ("hssplit", 30, 600)],
     "C13": [("redirect", 300, 7000), ("redirunk", 150, 3000), ("errredir", 150, 3000), ("redirtimeout", 150, 4000), ("redirmany", 40, 800)],
     "C15": [("bclose", 300, 7000), ("redirunk", 150, 3000), ("partialloss", 40, 1000)],
     "C16": [("timeout", 400, 10000), ("redirtimeout", 200, 5000), ("redirexpire", 80, 2000), ("ripen", 16, 300)],
@@ -121,7 +121,7 @@ def run(pid, tier, seed):
             n = nq if q else nt
             scs = gen_core.gen_many(seed, prof, n)
             ncf = CONF_RW[0] if q else CONF_RW[1]
-            if gen_core.PROFILES[prof].get("conns") or gen_core.PROFILES[prof].get("real_timeout_ms"):
+            if gen_core.PROFILES[prof].get("conns") or gen_core.PROFILES[prof].get("real_timeout_ms") or gen_core.PROFILES[prof].get("password"):
                 ncf = 0      # (not what the design model describes: several connections per node, real time)
             plain = [s for s in scs if not any(st["op"] in ("answerhead", "answerrest", "raw") or st.get("cls", "").startswith("=") for st in _stims(s))]   # (not in the design model)
             rest = [s for s in scs if s not in plain[:ncf]]
@@ -152,6 +152,13 @@ def run(pid, tier, seed):
         grp = {}
         if pid == "C06":
             groups.append(({"masters": 3, "mode": "step"}, gen_core.gen_split(seed, 300 if q else 8000, 12 if q else 60), "split", None))
+        if pid in ("C06", "C07"):
+            # the same with the proxy's slow log switched on and every answer later than its threshold (the bookkeeping of slow
+            # requests looks at the fragments' keys before the replies are merged)
+            slow = json.loads(json.dumps(gen_core.gen_split(seed + 31, 60 if q else 1500, 8)))
+            for sc in slow:
+                sc["steps"].insert(2, {"stim": [dict(st0, op="sleep", count=3)], "settle": False, "noIter": True})
+            groups.append(({"masters": 3, "mode": "step", "slowlogMs": 1}, slow, "slowsplit", None))
         if pid == "C08":
             c8 = {"masters": 3, "mode": "step"}
             per = 24 if q else 60
@@ -163,6 +170,8 @@ def run(pid, tier, seed):
             grp["segreuse"] = 4
             groups.append((c8, gen_core.gen_seg_pair(seed, 10 if q else 200, common.slot_tags(c8)), "segpair", None))
             grp["segpair"] = 4
+            groups.append((dict(c8, maxLen=200), gen_core.gen_seg_limit(seed, 8 if q else 150, 200), "seglimit", None))
+            grp["seglimit"] = 6
         specs = {}
         if pid == "C15":
             # a node that is removed from the topology while a request is in flight on it (the node stays silent)
